@@ -2,7 +2,7 @@ from registry import reg, Check
 
 reg(Check(
     "C18", "c18",
-    coq_targets=["Client/ClientCheck.vo", "Client/ClientProofs.vo", "Client/ClientProofs2.vo", "Client/ClientProofs3.vo", "Props/C18.vo"],
+    coq_targets=["Client/ClientCheck.vo", "Client/ClientProofs.vo", "Client/ClientProofs2.vo", "Client/ClientProofs3.vo", "Client/ClientProofs4.vo", "Props/C18.vo"],
     assumptions=[
         "transport (Impl) hypothesis: the constructor and Impl.Subscribe fail on an already cancelled context; a Recv that blocks returns an error once its context is cancelled or the Impl is closed; every other transport call and every application callback returns",
         "one Subscribe call and at most one Close call per client; single registered client type",
